@@ -25,6 +25,7 @@ type concMember struct {
 }
 
 type concRule struct {
+	reps    int // the block sits in a for loop that runs it this many times (1 = no loop)
 	name    string
 	base    int
 	members []concMember
@@ -141,13 +142,25 @@ func RunC18(k *fw.Case) {
 			fmt.Fprintf(&mb, "    %s\n", m.Text)
 			cr.members = append(cr.members, m)
 		}
+		cr.reps = 1
+		if r.Intn(4) == 0 {
+			cr.reps = 2 + r.Intn(2)
+		}
 		fmt.Fprintf(&b, "rule \"%s\" salience %d\nbegin\n  st(%d)\n  pre1 = %d\n  pre2 = %d\n", cr.name, 100-i, cr.base, 7000+i, 8000+i)
 		for _, pv := range preExisting {
 			fmt.Fprintf(&b, "  %s = -1\n", pv)
 		}
+		if cr.reps > 1 {
+			// the block (and the statement after it) sit in a loop: every pass is a complete fork/join
+			fmt.Fprintf(&b, "  for ci = 0; ci < %d; ci += 1 {\n  if ci >= 0 {\n", cr.reps)
+		}
 		b.WriteString("  conc {\n" + mb.String())
 		cr.afterID = cr.base + 99
-		fmt.Fprintf(&b, "  }\n%s  st(%d)\nend\n", after.String(), cr.afterID)
+		if cr.reps > 1 {
+			fmt.Fprintf(&b, "  }\n%s  st(%d)\n  }\n  }\nend\n", after.String(), cr.afterID)
+		} else {
+			fmt.Fprintf(&b, "  }\n%s  st(%d)\nend\n", after.String(), cr.afterID)
+		}
 		cr.text = b.String()
 		text.WriteString(cr.text)
 		rules = append(rules, cr)
@@ -245,12 +258,23 @@ func runConcOnce(k *fw.Case, r *rand.Rand, rb *builder.RuleBuilder, obs *trace.O
 		for _, m := range cr.members {
 			cats = append(cats, m.Cat)
 			k.Count("members_"+m.Cat, 1)
-			if n := len(pos[m.ID]); n != 1 {
-				k.Violate("member-count/"+m.Cat, fmt.Sprintf("conc member `%s` ran %d times (events at the moment the call returned), expected exactly once", m.Text, n), det(cr))
+			wantN := cr.reps
+			if cr.anyFail {
+				wantN = 1 // the first pass fails, the loop ends
+			}
+			if n := len(pos[m.ID]); n != wantN {
+				k.Violate("member-count/"+m.Cat, fmt.Sprintf("conc member `%s` ran %d times (events at the moment the call returned), expected %d (the block is executed %d time(s))", m.Text, n, wantN, wantN), det(cr))
 				continue
 			}
-			if aft := start[cr.afterID]; len(aft) > 0 && aft[0] < pos[m.ID][0] {
-				k.Violate("join/"+m.Cat, fmt.Sprintf("the statement after the conc block started (seq %d) before member `%s` had finished (seq %d)", aft[0], m.Text, pos[m.ID][0]), det(cr))
+			// pass p of the member must lie before the p-th "after" statement and after the (p-1)-th
+			aft := start[cr.afterID]
+			for pI, q := range pos[m.ID] {
+				if pI < len(aft) && aft[pI] < q {
+					k.Violate("join/"+m.Cat, fmt.Sprintf("the statement after the conc block started (seq %d) before member `%s` had finished (seq %d), pass %d", aft[pI], m.Text, q, pI+1), det(cr))
+				}
+				if pI > 0 && pI-1 < len(aft) && q < aft[pI-1] {
+					k.Violate("join/"+m.Cat, fmt.Sprintf("member `%s` of pass %d ran (seq %d) before the statement after the previous pass (seq %d)", m.Text, pI+1, q, aft[pI-1]), det(cr))
+				}
 			}
 			if !m.Fail && m.Target != "" && !cr.anyFail {
 				got, ok := vals.get(int64(m.ID))
@@ -266,8 +290,8 @@ func runConcOnce(k *fw.Case, r *rand.Rand, rb *builder.RuleBuilder, obs *trace.O
 		if cr.anyFail && nAfter > 0 {
 			k.Violate("error-dropped", "a conc member failed but the statements after the block ran", det(cr))
 		}
-		if !cr.anyFail && nAfter != 1 {
-			k.Violate("after-count", fmt.Sprintf("the statement after a healthy conc block ran %d times", nAfter), det(cr))
+		if !cr.anyFail && nAfter != cr.reps {
+			k.Violate("after-count", fmt.Sprintf("the statement after a healthy conc block ran %d times, expected %d", nAfter, cr.reps), det(cr))
 		}
 		k.Distinct(strings.Join(cats, ","), cr.anyFail, len(cr.members))
 	}
